@@ -456,22 +456,22 @@ def maxCtDeg (pb : List (Nat × Opd)) (deg : Nat) : Nat :=
       | some (_, o) => max acc o.deg
       | none => acc) 0
 
-/-- `EvaluatePolynomialVectorFromPowerBasis`.  The constant coefficient is added only under `IsEven`;
-    the powers `key = deg … 1` are used when `useIdx odd even key`. -/
+/-- `EvaluatePolynomialVectorFromPowerBasis`.  The constant coefficient is added unless the polynomial is
+    flagged odd-and-not-even (`even || !odd`); the powers `key = deg … 1` are used when `useIdx odd even key`. -/
 def evalFromPowerBasis (env : Env) (mapping : Option (List (List Nat))) (targetLevel : Int)
     (p : SubPoly) (targetScale : Nat) : M Opd := do
   let deg := p.degree
-  -- `len(Coeffs) - 1`, one less for an even (and not odd) polynomial; may be -1
+  -- `len(Coeffs) - 1`, one less for an even (and not odd) polynomial with more than one coefficient
   let len1 : Int := ((p.coeffs.headD []).length : Int) - 1
-  let minDeg : Int := if env.even && !env.odd then len1 - 1 else len1
+  let minDeg : Int := if env.even && !env.odd && len1 > 0 then len1 - 1 else len1
   let st ← get
   let zero := List.replicate env.slots (0 : Int)
   if minDeg = 0 then
     let res : Opd := { level := targetLevel, scale := targetScale, deg := 1, val := zero }
-    if env.even then addConst env res (coeffVec env mapping p.coeffs 0) else pure res
+    if env.even || !env.odd then addConst env res (coeffVec env mapping p.coeffs 0) else pure res
   else
     let res : Opd := { level := targetLevel, scale := targetScale, deg := maxCtDeg st.pb deg, val := zero }
-    let res ← (if env.even then addConst env res (coeffVec env mapping p.coeffs 0) else pure res)
+    let res ← (if env.even || !env.odd then addConst env res (coeffVec env mapping p.coeffs 0) else pure res)
     (List.range deg).foldlM (fun res i => do
       let key := deg - i
       if useIdx env.odd env.even key then
@@ -514,12 +514,13 @@ def giantLoop (env : Env) : Nat → List (Nat × Opd) → M (List (Nat × Opd))
       let l' ← giantPass env (l.length + 1) none l
       giantLoop env fuel l'
 
-/-- the powers `Evaluate` generates: `GenPower(2^(logDegree-1), false)`, then `GenPower(i, lazy)` for
+/-- the powers `Evaluate` generates: `GenPower(2^i, false)` for `i = 1 … logDegree-1`, then `GenPower(i, lazy)` for
     `i = 2^logSplit - 1 … 3` of the parities selected by the flags -/
 def genPowers (env : Env) (deg : Nat) (lazy : Bool) : M Unit := do
   let logDegree := bitLen deg
   let logSplit := optimalSplit logDegree
-  genPowerTop env (2 * deg + 8) (2 ^ (logDegree - 1)) false
+  -- the powers of two X^2 … X^(2^(logDegree-1)), one by one (a caller's basis may hold X^4 without X^2)
+  (List.range (logDegree - 1)).forM fun i => genPowerTop env (2 * deg + 8) (2 ^ (i + 1)) false
   (List.range (2 ^ logSplit)).forM fun k => do
     let i := 2 ^ logSplit - 1 - k
     if i > 2 && useIdx env.odd env.even i then genPowerTop env (2 * deg + 8) i lazy
@@ -561,8 +562,8 @@ def evaluateFrom (env : Env) (polys : List (List Int)) (mapping : Option (List (
   -- a constant polynomial consumes no level: the encoding of its coefficient at the target scale
   if deg = 0 then
     evalFromPowerBasis env mapping inLevel { coeffs := polys, maxDeg := 0, lead := true } targetScale
-  -- depth check (`levelsConsumedPerRescaling = 1`, also in the scale-invariant mode)
-  else if inLevel < depthCheck deg then throw "err"
+  -- depth check: `levelsConsumedPerRescaling·Depth()`, 0 levels per rescaling in the scale-invariant mode
+  else if !env.inv && inLevel < depthCheck deg then throw "err"
   else do
     genPowers env deg lazy
     let p0 : SubPoly := { coeffs := polys, maxDeg := deg, lead := true }
@@ -594,6 +595,8 @@ inductive PreOp where
   | gen (n : Nat) (lazy : Bool)
   /-- `pb.Value[n] =` a fresh encryption of `x^n` at the given level and scale -/
   | fresh (n : Nat) (level : Nat) (scale : Nat)
+  /-- `delete(pb.Value, n)` -/
+  | del (n : Nat)
 
 /-- slot-wise `x^n` (mod `t`) -/
 def powV (env : Env) (x : List Int) (n : Nat) : List Int := x.map fun a => redV env (a ^ n)
@@ -603,6 +606,9 @@ def preFill (env : Env) (x : List Int) : List PreOp → M Unit
   | .gen n lazy :: rest => do genPowerTop env (2 * n + 8) n lazy; preFill env x rest
   | .fresh n level scale :: rest => do
     setP n { level := level, scale := scale, deg := 1, val := powV env x n }
+    preFill env x rest
+  | .del n :: rest => do
+    modify fun st => { st with pb := st.pb.filter (·.1 != n) }
     preFill env x rest
 
 /-- `EvaluateFromPowerBasis(pb, p, targetScale)`: the basis holds the input at index 1 and whatever
